@@ -92,11 +92,15 @@ package node
 //@   pure
 //@   modifies $fx
 
+// what the node stores next to the future signature is the common expansion of the proposal's tasks (C03)
 //@ func (*BaseNodeService).processSignatureProposal
 //@   requires s != nil
 //@   requires[C09.guard] $mayWrite || $initEvent
 //@   pure
 //@   modifies $fx
+//@   assert@call TasksToMessages[C03.store.expansion] msgs == loc(proposal).SigningTasks
+//@   loop 0 invariant[C03.store.payload] len(signatures) == $i + 1 && (forall j int :: 0 <= j && j <= $i ==> signatures[j].SrcPayload == $range[j].Payload && signatures[j].MessageID == $range[j].MessageID && signatures[j].File == $range[j].File)
+//@   assert@call SaveSignatures[C03.store.payload] len(signature) == len(loc(messagesToSign)) && (forall j int :: 0 <= j && j < len(signature) ==> signature[j].SrcPayload == loc(messagesToSign)[j].Payload && signature[j].MessageID == loc(messagesToSign)[j].MessageID)
 
 //@ func (*BaseNodeService).broadcastReconstructedSignatures
 //@   requires s != nil
